@@ -544,6 +544,36 @@ func RunC02(t *testing.T, spec kernel.Spec) *kernel.Outcome {
 				}
 			}
 		}
+		// epilogue (a history, not a single token): the provider rotates its key and retires the old one. The
+		// long-lived verifiers above (the RP's remote key set has the old key cached) must believe the new key's
+		// tokens and, once the new key set has been fetched, no longer the retired key's.
+		id++
+		if cur.KID != "" && (!o.Spec.KeepSet || containsInt(o.Spec.Keep, id)) {
+			c.step = id
+			o.StepIDs = append(o.StepIDs, id)
+			o.Steps++
+			next := world.SignKeyFromFixture(world.FixtureKey(w.AlgPrefix, w.KeyN+2), w.SigAlg, "sig-next")
+			w.Store.RotateKey(next, true)
+			s2, err := codeFlow(w, b, flowOpts{client: client, scopes: []string{oidc.ScopeOpenID, oidc.ScopeEmail}})
+			if err != nil {
+				o.Probe("rotation-flow-failed")
+			} else {
+				o.Probe("rotation-epilogues")
+				for i, tok := range []string{s2.tokens.IDToken, s2.tokens.AccessToken, s2.tokens.IDToken} {
+					if accepted, _, detail := surfaces[i].deliver(tok); !accepted {
+						c.viol("genuine-rejected", surfaces[i].surface+"/after-rotation", "a token signed with the newly rotated key %s was rejected: %s", next.KID, detail)
+					}
+				}
+				for i, tok := range []string{s.tokens.IDToken, s.tokens.AccessToken, s.tokens.IDToken} {
+					o.Fault("retired")
+					if accepted, sub, _ := surfaces[i].deliver(tok); accepted {
+						c.viol("forged-accepted", surfaces[i].surface+"/signed-by-retired-key-after-refresh", "%s signed with the retired key %s (no longer in the published key set, which the verifier has fetched since) was believed; subject %q", surfaces[i].surface, cur.KID, sub)
+					} else {
+						o.Probe("tampered-rejected")
+					}
+				}
+			}
+		}
 		o.Log = append([]string{fmt.Sprintf("config: router=%s alg=%s shape=%s", w.Router, w.SigAlg, c.shape)}, o.Log...)
 		o.Sample = map[string]any{"seed": spec.Seed, "router": w.Router, "alg": string(w.SigAlg), "key_set_shape": c.shape, "operators": len(ops), "surfaces": len(surfaces)}
 		o.Trace = []string{fmt.Sprintf("router=%s alg=%s shape=%s", w.Router, w.SigAlg, c.shape)}
